@@ -1,5 +1,5 @@
 from .abstract_ranking import RankingElection
-from ...transfers import fractional_transfer
+from ...transfers import fractional_transfer, random_transfer
 from ....pref_profile import PreferenceProfile
 from ...election_state import ElectionState
 from ....ballot import Ballot
@@ -52,6 +52,12 @@ class STV(RankingElection):
         tiebreak: Optional[str] = None,
     ):
         self._stv_validate_profile(profile)
+
+        if transfer == random_transfer:
+            # the random transfer moves whole ballots: refuse non-integer weights up front
+            for ballot in profile.ballots:
+                if int(ballot.weight) != ballot.weight:
+                    raise TypeError(f"Ballot {ballot} does not have integer weight.")
 
         if m <= 0 or m > len(profile.candidates):
             raise ValueError(
